@@ -301,7 +301,7 @@ LAWS = [
         rule='1-4 of 75 formulas that push host lists (variable values flat and nested, a listener-served range and cell value, arguments handed to and a list returned by custom functions) through array arithmetic, array literals, omitted-slot calls, '
              'every aggregate, LARGE/MEDIAN/INDEX/MATCH/TEXTJOIN/CONCATENATE/SUMIFS...: afterwards every host list is deep-equal to its copy and consists of the very same list objects'),
     Law('no_retention', check_retention, strategy=st.fixed_dictionaries({'f': st.sampled_from(RETAIN), 'n': st.sampled_from([50, 200]), 'debug': st.booleans()}), key=ret_key,
-        quick=480, thorough=4000, shards=(16, 16), shrink=False,
+        quick=200, thorough=4000, shards=(16, 16), shrink=False,
         classes=lambda c: ('debug:%s' % c['debug'], 'n%d' % c['n']), required=('debug:True', 'debug:False', 'n50', 'n200'),
         rule='one of 32 formulas (mostly failing: lexical, syntax, run-time, raised by aggregates, raised by host callbacks, trapped by IFERROR) evaluated 5 times to warm up and then N = 50 or 200 more times: '
              'growth of gc-tracked objects, of live traceback/frame objects and of allocated memory blocks (sys.getallocatedblocks) < N/2, growth of the bytes reachable from the parser and the hotxlfp/ply modules < 4N, each in the smaller of two consecutive windows of N, traceback chains of the nine shared error objects do not grow'),
